@@ -87,7 +87,7 @@ def one_call(collocator, P, S, row, conf, rng=None):
     ds = cm.dataset(S, emb, conf["shape"], extra=extraS)
     kw = {"max_interval": cm.interval_arg(I, conf["sp"]), "max_distance": cm.distance_arg(k, N, conf["sp"]),
           "bin_factor": conf["bin_factor"], "magnitude_factor": conf["magnitude_factor"], "leaf_size": conf["leaf_size"]}
-    if I >= 0 and conf.get("window", True):
+    if conf.get("window", True):
         kw["start"], kw["end"] = cm.window_arg(ws, we)
     res = collocator.collocate(dp, ds, **kw)
     got = cm.project(res, N)
@@ -234,8 +234,7 @@ def record_history(rng, tid):
         try:
             kw = {"max_interval": cm.interval_arg(I, 0), "max_distance": cm.distance_arg(k, N, 0),
                   "magnitude_factor": rng.choice([1, 10]), "leaf_size": rng.choice([1, 40])}
-            if I >= 0:
-                kw["start"], kw["end"] = cm.window_arg(ws, we)
+            kw["start"], kw["end"] = cm.window_arg(ws, we)
             res = c.collocate(cm.dataset(P, emb), cm.dataset(S, emb), **kw)
             calls.append(dict(base, ok=True, **cm.project(res, N)))
         except Exception as ex:
@@ -257,8 +256,7 @@ def record_cloud(rng, tid):
     try:
         kw = {"max_interval": cm.interval_arg(I, tid), "max_distance": cm.distance_arg(k, N, tid),
               "bin_factor": rng.choice([1, 2, 4]), "leaf_size": rng.choice([1, 40])}
-        if I >= 0:
-            kw["start"], kw["end"] = cm.window_arg(ws, we)
+        kw["start"], kw["end"] = cm.window_arg(ws, we)
         res = Collocator().collocate(cm.dataset(P, emb, rng.choice(["linear", "grid"])), cm.dataset(S, emb), **kw)
         call = dict(base, ok=True, **cm.project(res, N))
     except Exception as ex:
